@@ -234,7 +234,7 @@ func (c CollectionPage) MarshalJSON() ([]byte, error) {
 	if c.Prev != nil {
 		notEmpty = JSONWriteItemProp(&b, "prev", c.Prev) || notEmpty
 	}
-	notEmpty = JSONWriteIntProp(&b, "totalItems", int64(c.TotalItems)) || notEmpty
+	notEmpty = JSONWriteUintProp(&b, "totalItems", uint64(c.TotalItems)) || notEmpty
 	if c.Items != nil {
 		notEmpty = JSONWriteItemCollectionProp(&b, "items", c.Items, false) || notEmpty
 	}
